@@ -282,6 +282,12 @@ func (fr *Frame) loadAssume(addr string, t types.Type, v *Val) {
 		if ep, ok := fr.st.epoch[l.Key]; ok {
 			arr0, wm0 = ep[0], ep[1]
 		}
+		if l.Kind == lkPtr && isStructPtr(l.Cell) {
+			// a struct pointer read from memory never points into the middle of another object
+			for _, ro := range vc.rootObjs {
+				vc.assume(imp(fr.reach, objApart(v.L[i], elemOf(l.Cell), ro.addr, ro.t)))
+			}
+		}
 		if wm0 == fr.st.wm || arr0 == "?" {
 			continue
 		}
